@@ -11,7 +11,7 @@ EXTENDS NodeOpsProps, TLC, Json, IOUtils
 VARIABLES l
 Trace == ndJsonDeserialize(IOEnv.TRACE_FILE)
 
-PlanOf(e) == Acting(e.plan.ak, e.plan.am, e.plan.av)
+PlanOf(e) == Acting(e.plan.ak, e.plan.am, e.plan.av, e.plan.akind, e.plan.ar)
 ObsOf(e) == [e EXCEPT !.plan = PlanOf(e)]
 FrameOf(e) == CASE e.k = "sp" -> FrSP(e.n, e.v)
                 [] e.k = "dc" -> FrDC(e.n)
